@@ -5,7 +5,11 @@ import os
 import sys
 
 TRANSLATORS = [
-    # "translate_rules",   (C15)  — one line per translator module
+    # one line per translator module
+    "translate_math",     # C01/C04: gen/MathTables.v (supportedMathMLElements)
+    "translate_rules",    # C15: gen/RuleTable.v, gen/IssueSites.v
+    "translate_units",    # C08: gen/UnitTables.v, gen/PrefixTable.v
+    "translate_profile",  # C03/C17: gen/AstTypes.v, gen/ProfileStrings.v
 ]
 
 
